@@ -19,13 +19,15 @@ TIERS = {
     "quick": dict(
         plan={"ASSGN2": (8, 30, 7, 19, 3, 7, 5, 7, 3), "XMLISH": (7, 30, 6, 20, 3, 9, 5, 7, 3), "CSVISH": (8, 22, 7, 16, 3, 6, 5, 7, 3),
               "NULLABLE": (8, 16, 7, 13, 3, 6, 4, 6, 3), "LEFTREC": (7, 22, 6, 16, 3, 6, 4, 6, 3), "AMBIG": (6, 15, 5, 13, 3, 5, 3, 5, 3),
-              "RIGHTREC": (8, 20, 7, 16, 3, 6, 3, 5, 3), "MULTICHAR": (3, 8, 3, 8, 2, 3, 2, 3, 2)},
+              "RIGHTREC": (8, 20, 7, 16, 3, 6, 3, 5, 3), "MULTICHAR": (3, 8, 3, 8, 2, 3, 2, 3, 2),
+              "PAIRS": (6, 16, 5, 13, 3, 6, 4, 6, 3)},
         cap=20, task_timeout=300),
     "thorough": dict(
         plan={"ASSGN2": (9, 34, 8, 22, 4, 9, 26, 40, 6), "XMLISH": (8, 34, 7, 24, 3, 9, 26, 40, 6), "CSVISH": (8, 24, 7, 18, 3, 7, 26, 40, 6),
               "NULLABLE": (10, 20, 9, 17, 3, 6, 12, 24, 6), "LEFTREC": (8, 24, 7, 18, 3, 6, 16, 30, 6), "AMBIG": (7, 17, 6, 15, 3, 5, 12, 30, 5),
               "RIGHTREC": (9, 24, 8, 18, 3, 6, 12, 30, 5), "NUM": (8, 20, 7, 16, 3, 6, 12, 30, 5), "LENGTHS": (8, 20, 7, 16, 3, 6, 12, 30, 5),
-              "TWOSTART": (10, 20, 9, 17, 3, 5, 8, 12, 4), "MULTICHAR": (3, 8, 3, 8, 2, 3, 5, 8, 3)},
+              "TWOSTART": (10, 20, 9, 17, 3, 5, 8, 12, 4), "MULTICHAR": (3, 8, 3, 8, 2, 3, 5, 8, 3),
+              "PAIRS": (7, 20, 6, 16, 3, 7, 12, 24, 5)},
         cap=60, task_timeout=900),
 }
 MASKS = list(range(8))
@@ -85,7 +87,10 @@ def build_pairs(chk, wd):
                 continue
             bare = [t for t in trees if t["open"]]
             others = [t for t in trees if not t["open"]]
-            for ins in bare + sample(rnd, others, n_ins - 1):
+            # single-child chains down to a hole (what a match expression like "{<assgn> a}" yields) are always included
+            chains = [t for t in others if _is_chain(t)][:3]
+            rest = [t for t in others if t not in chains]
+            for ins in bare + chains + sample(rnd, rest, n_ins - 1):
                 for hk, h in hosts:
                     pairs.append({"grammar": name, "g": jg, "host_kind": hk, "ins_nt": nt,
                                   "ins_kind": "leaf" if ins["open"] else ("open" if _is_open(ins) else "closed"),
@@ -106,6 +111,12 @@ def normalize_fresh_ids(j, base=1000000):
             n["id"] = ren.setdefault(n["id"], base + len(ren))
         stack.extend(reversed(n["ch"]))
     return j
+
+
+def _is_chain(j):
+    while len(j["ch"]) == 1:
+        j = j["ch"][0]
+    return j["open"]
 
 
 def _is_open(j):
@@ -136,6 +147,25 @@ def run(chk, pairs, masks=MASKS, max_num_solutions=50):
                 tasks.append({"g": c[0]["g"], "masks": masks, "cap": P["cap"], "max_num_solutions": max_num_solutions,
                               "pairs": [{"pid": p["pid"], "host": p["host"], "ins": p["ins"]} for p in c]})
         results = pmap("c13", tasks, timeout=P["task_timeout"])
+        # insert_tree guards its results with `assert`: a call that raised is made once more in an interpreter started
+        # with -O (assertions off), where the guarded result would be handed to the caller
+        again = []
+        for t, res in zip(tasks, results):
+            for pr in res.get("pairs", []):
+                ms = [c["mask"] for c in pr["calls"] if c["res"] == "exc"]
+                if ms:
+                    p = bypid[pr["pid"]]
+                    again.append((t, pr, {"pid": p["pid"], "host": p["host"], "ins": p["ins"], "masks": ms}))
+        if again:
+            t2 = [{"g": t["g"], "masks": [], "cap": P["cap"], "max_num_solutions": max_num_solutions, "pairs": [pp]} for t, _, pp in again]
+            for (t, pr, pp), res in zip(again, pmap("c13", t2, timeout=P["task_timeout"], env={"VERIF_PY_O": "1"})):
+                for c2 in (res.get("pairs") or [{"calls": []}])[0]["calls"]:
+                    chk.note("raising_calls_repeated_without_assertions")
+                    if c2["res"] == "ok":
+                        chk.note("raising_calls_returning_results_without_assertions")
+                        for c in pr["calls"]:
+                            if c["mask"] == c2["mask"]:
+                                c.update(res="ok", results=c2["results"], exc_with_assertions=c["exc"])
         gnames, gs, calls, prov = [], [], [], {}
         for t, res in zip(tasks, results):
             if res.get("_timeout") or res.get("_crashed"):
